@@ -1,5 +1,6 @@
 import Tally.Model.Scope
 import TallyProofs.Lemmas.CanonLemmas
+import TallyProofs.Lemmas.ScopeSanLemmas
 /-!
 # Helper lemmas for C04 / C05 on the scope model.  Core Lean only.
 
@@ -11,6 +12,11 @@ composition.  The semantic side conditions of the primitives (key of the entry i
 scope's identity, …) are only required under the flag `sem`, which is instantiated with
 "no sanitizer is configured"; with `sem := False` the decomposition is unconditional, which gives the
 cfg-independent theorems (identity of a scope never changes, metric ids are fresh).
+
+A second flag `semD` carries the side conditions of the *generalised* registry invariant `InvD`
+(sanitizer-aware: an entry is the identity key of its scope or a raw alias key, every tag map is
+canonical and sanitizer-fixed); it is instantiated with "every `Tagged` map keeps its sanitized keys
+distinct".
 -/
 namespace Tally.Scope
 open Tally Tally.KeyGen
@@ -198,46 +204,47 @@ theorem getScope_purgeSt_of_some {st : St} (b : Bool) {j : Nat} {x : ScopeS}
 
 /-! ## primitive transitions -/
 
-inductive Prim (sem : Prop) (ok : Bytes → Nat → Prop) : St → St → Prop
+inductive Prim (sem semD : Prop) (ok : Bytes → Nat → Prop) : St → St → Prop
   | setMetrics (st : St) (sid : Nat) (s : ScopeS) (ms : List (Nat × Metric)) :
       getScope st sid = some s →
       (ms.map msig).Sublist (s.metrics.map msig) →
       (s.closed = false → ms.map msig = s.metrics.map msig) →
-      Prim sem ok st (setScope st sid { s with metrics := ms })
+      Prim sem semD ok st (setScope st sid { s with metrics := ms })
   | addMetric (st : St) (sid : Nat) (s : ScopeS) (m : Metric) :
       getScope st sid = some s →
-      Prim sem ok st
+      Prim sem semD ok st
         { setScope st sid { s with metrics := s.metrics ++ [(st.nextMetric, m)] } with
           nextMetric := st.nextMetric + 1 }
   | setTimers (st : St) (t : List (Nat × (Bytes × TagMap))) :
       (∀ id v, st.timers.lookup id = some v → t.lookup id = some v) →
       (∀ id nm tg, (id, (nm, tg)) ∈ t → (id, (nm, tg)) ∈ st.timers ∨
         ∃ sid sc n, getScope st sid = some sc ∧ nm = fqn st.sep sc.pfx (sanName st.cfg n) ∧ tg = sc.tags) →
-      Prim sem ok st { st with timers := t }
+      Prim sem semD ok st { st with timers := t }
   | closeScope (st : St) (sid : Nat) (s : ScopeS) :
-      getScope st sid = some s → Prim sem ok st (setScope st sid { s with closed := true })
+      getScope st sid = some s → Prim sem semD ok st (setScope st sid { s with closed := true })
   | regRemove (st : St) (sh : Nat) (k : Bytes) (sid : Nat) (s : ScopeS) :
-      getScope st sid = some s → s.closed = true → Prim sem ok st (regRemove st sh k sid)
+      getScope st sid = some s → s.closed = true → Prim sem semD ok st (regRemove st sh k sid)
   | regAdd (st : St) (sh : Nat) (k : Bytes) (sid : Nat) (s : ScopeS) :
-      getScope st sid = some s → (sem → k = key s.pfx [s.tags]) →
-      Prim sem ok st (regAdd st sh k sid)
+      getScope st sid = some s → (sem → k = key s.pfx [s.tags]) → (semD → ScopeKey st.cfg k s) →
+      Prim sem semD ok st (regAdd st sh k sid)
   | create (st : St) (sh : Nat) (k : Bytes) (ns : ScopeS) :
       ns.closed = false → ns.isRoot = false → ns.metrics = [] →
       (sem → Canonical ns.tags ∧ k = key ns.pfx [ns.tags] ∧ st.reg.lookup (sh, k) = none ∧ ok k sh) →
-      Prim sem ok st (regAdd { st with scopes := st.scopes ++ [ns] } sh k st.scopes.length)
-  | rootClosed (st : St) : Prim sem ok st { st with rootClosed := true }
-  | purge (st : St) (b : Bool) : Prim sem ok st (purgeSt st b)
+      (semD → Canonical ns.tags ∧ FixedTags st.cfg ns.tags ∧ ScopeKey st.cfg k ns) →
+      Prim sem semD ok st (regAdd { st with scopes := st.scopes ++ [ns] } sh k st.scopes.length)
+  | rootClosed (st : St) : Prim sem semD ok st { st with rootClosed := true }
+  | purge (st : St) (b : Bool) : Prim sem semD ok st (purgeSt st b)
 
-inductive Prims (sem : Prop) (ok : Bytes → Nat → Prop) : St → St → Prop
-  | refl (st : St) : Prims sem ok st st
-  | one {st st' : St} : Prim sem ok st st' → Prims sem ok st st'
-  | trans {a b c : St} : Prims sem ok a b → Prims sem ok b c → Prims sem ok a c
+inductive Prims (sem semD : Prop) (ok : Bytes → Nat → Prop) : St → St → Prop
+  | refl (st : St) : Prims sem semD ok st st
+  | one {st st' : St} : Prim sem semD ok st st' → Prims sem semD ok st st'
+  | trans {a b c : St} : Prims sem semD ok a b → Prims sem semD ok b c → Prims sem semD ok a c
 
-theorem Prims.of_eq {sem : Prop} {ok : Bytes → Nat → Prop} {a b : St} (h : a = b) :
-    Prims sem ok a b := h ▸ Prims.refl a
+theorem Prims.of_eq {sem semD : Prop} {ok : Bytes → Nat → Prop} {a b : St} (h : a = b) :
+    Prims sem semD ok a b := h ▸ Prims.refl a
 
-theorem Prims.tail {sem : Prop} {ok : Bytes → Nat → Prop} {a b c : St}
-    (h : Prims sem ok a b) (p : Prim sem ok b c) : Prims sem ok a c := h.trans (.one p)
+theorem Prims.tail {sem semD : Prop} {ok : Bytes → Nat → Prop} {a b c : St}
+    (h : Prims sem semD ok a b) (p : Prim sem semD ok b c) : Prims sem semD ok a c := h.trans (.one p)
 
 /-! ## `Ext`: what no transition ever changes -/
 
@@ -362,7 +369,7 @@ theorem ext_append (st : St) (ns : ScopeS) (hm : ns.metrics = []) :
     · simp [ids, hm] at hi
   timers := fun _ _ h => h
 
-theorem prim_ext {sem : Prop} {ok : Bytes → Nat → Prop} {st st' : St} (h : Prim sem ok st st') :
+theorem prim_ext {sem semD : Prop} {ok : Bytes → Nat → Prop} {st st' : St} (h : Prim sem semD ok st st') :
     Ext st st' := by
   cases h with
   | setMetrics sid s ms hg hsub heq =>
@@ -409,7 +416,7 @@ theorem prim_ext {sem : Prop} {ok : Bytes → Nat → Prop} {st st' : St} (h : P
       · simp [ids] at hi
       · exact ⟨_, hx, hi⟩
 
-theorem prims_ext {sem : Prop} {ok : Bytes → Nat → Prop} {st st' : St} (h : Prims sem ok st st') :
+theorem prims_ext {sem semD : Prop} {ok : Bytes → Nat → Prop} {st st' : St} (h : Prims sem semD ok st st') :
     Ext st st' := by
   induction h with
   | refl st => exact Ext.refl st
@@ -417,40 +424,6 @@ theorem prims_ext {sem : Prop} {ok : Bytes → Nat → Prop} {st st' : St} (h : 
   | trans _ _ ih1 ih2 => exact ih1.trans ih2
 
 /-! ## association-list look-ups -/
-
-theorem lookup_none_iff_not_mem_keys {α β : Type} [BEq α] [LawfulBEq α] (l : List (α × β)) (a : α) :
-    l.lookup a = none ↔ a ∉ l.map (·.1) := by
-  rw [List.lookup_eq_none_iff]
-  constructor
-  · intro h hk
-    obtain ⟨p, hp, e⟩ := List.mem_map.mp hk
-    have := h p hp
-    simp [e] at this
-  · intro h p hp
-    have : a ≠ p.1 := fun e => h (List.mem_map.mpr ⟨p, hp, e.symm⟩)
-    simpa using this
-
-theorem mem_of_lookup_eq_some {α β : Type} [BEq α] [LawfulBEq α] {l : List (α × β)} {a : α} {b : β}
-    (h : l.lookup a = some b) : (a, b) ∈ l := by
-  obtain ⟨l1, l2, rfl, _⟩ := List.lookup_eq_some_iff.mp h
-  simp
-
-theorem lookup_of_mem_nodup {α β : Type} [BEq α] [LawfulBEq α] : ∀ {l : List (α × β)} {a : α} {b : β},
-    (l.map (·.1)).Nodup → (a, b) ∈ l → l.lookup a = some b
-  | [], _, _, _, h => by cases h
-  | (a', b') :: l, a, b, hn, h => by
-    simp only [List.map_cons] at hn
-    have hn' := List.nodup_cons.mp hn
-    rw [List.lookup_cons]
-    rcases List.mem_cons.mp h with e | e
-    · cases e
-      simp
-    · have hne : a ≠ a' := by
-        rintro rfl
-        exact hn'.1 (List.mem_map.mpr ⟨(a, b), e, rfl⟩)
-      have : (a == a') = false := by simpa using hne
-      rw [this]
-      exact lookup_of_mem_nodup hn'.2 e
 
 theorem lookup_append_of_some {α β : Type} [BEq α] {l : List (α × β)} {a : α} {b : β}
     (h : l.lookup a = some b) (l' : List (α × β)) : (l ++ l').lookup a = some b := by
@@ -599,8 +572,8 @@ theorem inv_same_scopes {st st' : St} (hi : Inv st) (hr : st'.reg = st.reg)
   · show (st'.reg.map (·.1)).Nodup
     rw [hr]; exact hi.nodup
 
-theorem prim_inv {sem : Prop} {ok : Bytes → Nat → Prop} {st st' : St} (hsem : sem)
-    (h : Prim sem ok st st') (hi : Inv st) : Inv st' := by
+theorem prim_inv {sem semD : Prop} {ok : Bytes → Nat → Prop} {st st' : St} (hsem : sem)
+    (h : Prim sem semD ok st st') (hi : Inv st) : Inv st' := by
   cases h with
   | setMetrics sid s ms hg hsub heq => exact inv_setScope { s with metrics := ms } hi hg rfl rfl rfl (fun _ => rfl)
   | addMetric sid s m hg =>
@@ -647,11 +620,157 @@ theorem prim_inv {sem : Prop} {ok : Bytes → Nat → Prop} {st st' : St} (hsem 
     · show (([] : List ((Nat × Bytes) × Nat)).map (·.1)).Nodup
       simp
 
-theorem prims_inv {sem : Prop} {ok : Bytes → Nat → Prop} {st st' : St} (hsem : sem)
-    (h : Prims sem ok st st') : Inv st → Inv st' := by
+theorem prims_inv {sem semD : Prop} {ok : Bytes → Nat → Prop} {st st' : St} (hsem : sem)
+    (h : Prims sem semD ok st st') : Inv st → Inv st' := by
   induction h with
   | refl st => exact id
   | one p => exact prim_inv hsem p
+  | trans _ _ ih1 ih2 => exact fun x => ih2 (ih1 x)
+
+/-! ## the generalised (sanitizer-aware) registry invariant -/
+
+/-- every registry entry points to an existing scope and its key is the key of the scope's identity or a
+raw alias key of it (`ScopeKey`: `key s.pfx [ptags, m]` for sanitizer-fixed `ptags` and a map `m` with
+distinct sanitized keys such that `s.tags = canon [ptags, sanMap cfg m]`) -/
+def RegInvD (st : St) : Prop :=
+  ∀ sh k sid, ((sh, k), sid) ∈ st.reg → ∃ s, getScope st sid = some s ∧ ScopeKey st.cfg k s
+
+/-- the tag map of every scope consists of fixed points of the sanitizer -/
+def FixedInv (st : St) : Prop := ∀ sid s, getScope st sid = some s → FixedTags st.cfg s.tags
+
+structure InvD (st : St) : Prop where
+  reg : RegInvD st
+  canon : CanonInv st
+  fixed : FixedInv st
+
+/-- a registry hit under `key pfx [pt, m]` is the scope with prefix `pfx` and tags `pt` overlaid by the
+sanitized `m` -/
+theorem InvD.hit {st : St} (hi : InvD st) {sh sid : Nat} {k : Bytes} {s : ScopeS}
+    (hl : st.reg.lookup (sh, k) = some sid) (hg : getScope st sid = some s) {pfx : Bytes} {pt m : TagMap}
+    (hpt : FixedTags st.cfg pt) (hm : SanDistinct st.cfg m) (hk : k = key pfx [pt, m]) :
+    s.pfx = pfx ∧ s.tags = KeyGen.canon [pt, sanMap st.cfg m] := by
+  obtain ⟨s0, hg0, hk0⟩ := hi.reg sh k sid (mem_of_lookup_eq_some hl)
+  rw [hg] at hg0; cases hg0
+  exact hk0.hit (hi.canon sid s hg) (hi.fixed sid s hg) hpt hm hk
+
+theorem invD_setScope {st st' : St} {sid : Nat} {s : ScopeS} (s' : ScopeS) (hi : InvD st)
+    (hg : getScope st sid = some s) (hp : s'.pfx = s.pfx) (ht : s'.tags = s.tags)
+    (hr : st'.reg = st.reg) (hc : st'.cfg = st.cfg)
+    (hs : ∀ j, getScope st' j = getScope (setScope st sid s') j) : InvD st' := by
+  refine ⟨?_, ?_, ?_⟩
+  · intro sh k j hm
+    rw [hr] at hm
+    obtain ⟨sj, hj, hk⟩ := hi.reg sh k j hm
+    rw [hc]
+    by_cases e : sid = j
+    · subst e
+      rw [hg] at hj; cases hj
+      refine ⟨s', by rw [hs, getScope_setScope_self hg], ?_⟩
+      unfold ScopeKey RawAlias at hk ⊢
+      rw [hp, ht]; exact hk
+    · exact ⟨sj, by rw [hs, getScope_setScope_ne st e]; exact hj, hk⟩
+  · intro j sj hj
+    rw [hs] at hj
+    by_cases e : sid = j
+    · subst e
+      rw [getScope_setScope_self hg] at hj; cases hj
+      rw [ht]; exact hi.canon _ _ hg
+    · rw [getScope_setScope_ne st e] at hj
+      exact hi.canon _ _ hj
+  · intro j sj hj
+    rw [hs] at hj
+    rw [hc]
+    by_cases e : sid = j
+    · subst e
+      rw [getScope_setScope_self hg] at hj; cases hj
+      rw [ht]; exact hi.fixed _ _ hg
+    · rw [getScope_setScope_ne st e] at hj
+      exact hi.fixed _ _ hj
+
+theorem invD_same_scopes {st st' : St} (hi : InvD st) (hr : st'.reg = st.reg)
+    (hs : st'.scopes = st.scopes) (hc : st'.cfg = st.cfg) : InvD st' := by
+  have hg : ∀ j, getScope st' j = getScope st j := fun j => by unfold getScope; rw [hs]
+  refine ⟨?_, ?_, ?_⟩
+  · intro sh k j hm
+    rw [hr] at hm
+    obtain ⟨sj, hj, hk⟩ := hi.reg sh k j hm
+    exact ⟨sj, by rw [hg]; exact hj, by rw [hc]; exact hk⟩
+  · intro j sj hj
+    rw [hg] at hj
+    exact hi.canon _ _ hj
+  · intro j sj hj
+    rw [hg] at hj
+    rw [hc]
+    exact hi.fixed _ _ hj
+
+theorem prim_invD {sem semD : Prop} {ok : Bytes → Nat → Prop} {st st' : St} (hsem : semD)
+    (h : Prim sem semD ok st st') (hi : InvD st) : InvD st' := by
+  cases h with
+  | setMetrics sid s ms hg hsub heq =>
+    exact invD_setScope { s with metrics := ms } hi hg rfl rfl rfl rfl (fun _ => rfl)
+  | addMetric sid s m hg =>
+    exact invD_setScope { s with metrics := s.metrics ++ [(st.nextMetric, m)] } hi hg rfl rfl rfl rfl
+      (fun _ => rfl)
+  | setTimers t _ _ => exact invD_same_scopes hi rfl rfl rfl
+  | closeScope sid s hg =>
+    exact invD_setScope { s with closed := true } hi hg rfl rfl rfl rfl (fun _ => rfl)
+  | regRemove sh k sid s hg hc =>
+    refine ⟨?_, hi.canon, hi.fixed⟩
+    intro sh' k' j hm
+    exact hi.reg sh' k' j (List.mem_filter.mp hm).1
+  | regAdd sh k sid s hg hk hkD =>
+    refine ⟨?_, ?_, ?_⟩
+    · intro sh' k' j hm
+      rw [regAdd_cfg]
+      rcases mem_regAdd hm with h1 | h1
+      · obtain ⟨sj, hj, hk'⟩ := hi.reg sh' k' j h1
+        exact ⟨sj, by simpa using hj, hk'⟩
+      · cases h1
+        exact ⟨s, by simpa using hg, hkD hsem⟩
+    · intro j sj hj
+      exact hi.canon j sj (by simpa using hj)
+    · intro j sj hj
+      rw [regAdd_cfg]
+      exact hi.fixed j sj (by simpa using hj)
+  | create sh k ns hc hr hm hs hsD =>
+    obtain ⟨hcan, hfix, hk⟩ := hsD hsem
+    refine ⟨?_, ?_, ?_⟩
+    · intro sh' k' j hmem
+      rw [regAdd_cfg]
+      rcases mem_regAdd hmem with h1 | h1
+      · obtain ⟨sj, hj, hk'⟩ := hi.reg sh' k' j h1
+        exact ⟨sj, by rw [getScope_regAdd]; exact getScope_append_old ns hj, hk'⟩
+      · cases h1
+        exact ⟨ns, by rw [getScope_regAdd]; exact getScope_append_new st ns, hk⟩
+    · intro j sj hj
+      rw [getScope_regAdd] at hj
+      rcases getScope_append_cases ns hj with h1 | ⟨_, rfl⟩
+      · exact hi.canon j sj h1
+      · exact hcan
+    · intro j sj hj
+      rw [getScope_regAdd] at hj
+      rw [regAdd_cfg]
+      rcases getScope_append_cases ns hj with h1 | ⟨_, rfl⟩
+      · exact hi.fixed j sj h1
+      · exact hfix
+  | rootClosed => exact invD_same_scopes hi rfl rfl rfl
+  | purge b =>
+    refine ⟨?_, ?_, ?_⟩
+    · intro sh k j hm; cases hm
+    · intro j sj hj
+      obtain ⟨x, hx, ⟨rfl, _⟩ | ⟨rfl, _⟩⟩ := getScope_purgeSt hj
+      · exact hi.canon j x hx
+      · exact hi.canon j _ hx
+    · intro j sj hj
+      obtain ⟨x, hx, ⟨rfl, _⟩ | ⟨rfl, _⟩⟩ := getScope_purgeSt hj
+      · exact hi.fixed j x hx
+      · exact hi.fixed j _ hx
+
+theorem prims_invD {sem semD : Prop} {ok : Bytes → Nat → Prop} {st st' : St} (hsem : semD)
+    (h : Prims sem semD ok st st') : InvD st → InvD st' := by
+  induction h with
+  | refl st => exact id
+  | one p => exact prim_invD hsem p
   | trans _ _ ih1 ih2 => exact fun x => ih2 (ih1 x)
 
 /-! ## metric ids are globally fresh -/
@@ -761,8 +880,8 @@ theorem metInv_same {st st' : St} (hi : MetInv st) (hsc : st'.scopes = st.scopes
 theorem allIds_purge (st : St) (b : Bool) : (allIds (purgeSt st b)).Sublist (allIds st) :=
   purgeFrom_ids_sublist _ st.scopes 0
 
-theorem prim_metInv {sem : Prop} {ok : Bytes → Nat → Prop} {st st' : St}
-    (h : Prim sem ok st st') (hi : MetInv st) : MetInv st' := by
+theorem prim_metInv {sem semD : Prop} {ok : Bytes → Nat → Prop} {st st' : St}
+    (h : Prim sem semD ok st st') (hi : MetInv st) : MetInv st' := by
   cases h with
   | setMetrics sid s ms hg hsub heq =>
     refine metInv_set (s' := { s with metrics := ms }) hi hg rfl ?_ (Nat.le_refl _)
@@ -803,8 +922,8 @@ theorem prim_metInv {sem : Prop} {ok : Bytes → Nat → Prop} {st st' : St}
     have hsl := allIds_purge st b
     exact ⟨List.Nodup.sublist hsl hi.nodup, fun i h => hi.lt i (hsl.subset h)⟩
 
-theorem prims_metInv {sem : Prop} {ok : Bytes → Nat → Prop} {st st' : St}
-    (h : Prims sem ok st st') : MetInv st → MetInv st' := by
+theorem prims_metInv {sem semD : Prop} {ok : Bytes → Nat → Prop} {st st' : St}
+    (h : Prims sem semD ok st st') : MetInv st → MetInv st' := by
   induction h with
   | refl st => exact id
   | one p => exact prim_metInv p
@@ -853,8 +972,8 @@ theorem liveReg_same {f : Bytes → Nat} {st st' : St} (hl : LiveReg f st) (hreg
   rw [hreg]
   exact hl j sj this hcl sh h1 (fun h => by rw [← hcfg]; exact h2 h)
 
-theorem prim_liveReg {sem : Prop} {f : Bytes → Nat} {st st' : St} (hsem : sem)
-    (h : Prim sem (fun k sh => sh = f k) st st') (hl : LiveReg f st) : LiveReg f st' := by
+theorem prim_liveReg {sem semD : Prop} {f : Bytes → Nat} {st st' : St} (hsem : sem)
+    (h : Prim sem semD (fun k sh => sh = f k) st st') (hl : LiveReg f st) : LiveReg f st' := by
   cases h with
   | setMetrics sid s ms hg hsub heq =>
     exact liveReg_setScope { s with metrics := ms } hl hg rfl rfl rfl id rfl rfl (fun _ => rfl)
@@ -901,8 +1020,8 @@ theorem prim_liveReg {sem : Prop} {f : Bytes → Nat} {st st' : St} (hsem : sem)
     · have := mem_of_lookup_eq_some (hl j _ hx hcl sh h1 h2)
       exact hnot (List.mem_map.mpr ⟨_, this, rfl⟩)
 
-theorem prims_liveReg {sem : Prop} {f : Bytes → Nat} {st st' : St} (hsem : sem)
-    (h : Prims sem (fun k sh => sh = f k) st st') : LiveReg f st → LiveReg f st' := by
+theorem prims_liveReg {sem semD : Prop} {f : Bytes → Nat} {st st' : St} (hsem : sem)
+    (h : Prims sem semD (fun k sh => sh = f k) st st') : LiveReg f st → LiveReg f st' := by
   induction h with
   | refl st => exact id
   | one p => exact prim_liveReg hsem p
@@ -923,8 +1042,8 @@ theorem timerInv_of_ext {st st' : St} (he : Ext st st') (ht : st'.timers = st.ti
   obtain ⟨sc', hg', hp, htg, _⟩ := he.scope sid sc hg
   exact ⟨sid, sc', n, hg', by rw [he.sep, he.cfg, hp]; exact h1, by rw [htg]; exact h2⟩
 
-theorem prim_timerInv {sem : Prop} {ok : Bytes → Nat → Prop} {st st' : St}
-    (h : Prim sem ok st st') (hi : TimerInv st) : TimerInv st' := by
+theorem prim_timerInv {sem semD : Prop} {ok : Bytes → Nat → Prop} {st st' : St}
+    (h : Prim sem semD ok st st') (hi : TimerInv st) : TimerInv st' := by
   have he := prim_ext h
   cases h with
   | setTimers t h1 h2 =>
@@ -941,8 +1060,8 @@ theorem prim_timerInv {sem : Prop} {ok : Bytes → Nat → Prop} {st st' : St}
   | rootClosed => exact timerInv_of_ext he rfl hi
   | purge b => exact timerInv_of_ext he rfl hi
 
-theorem prims_timerInv {sem : Prop} {ok : Bytes → Nat → Prop} {st st' : St}
-    (h : Prims sem ok st st') : TimerInv st → TimerInv st' := by
+theorem prims_timerInv {sem semD : Prop} {ok : Bytes → Nat → Prop} {st st' : St}
+    (h : Prims sem semD ok st st') : TimerInv st → TimerInv st' := by
   induction h with
   | refl st => exact id
   | one p => exact prim_timerInv p
